@@ -389,6 +389,13 @@ ADD_TEXT["C04"] += (" Round 7: in every reachable state whoever stands in a queu
 ADD_TEXT["C09"] += (" Round 7: in every reachable state of the core bus each slot is between two connected clients, neither a monitor (slots_between_connected_clients) - a slot ends "
                     "by the callee's reply, by expiry or by one of the two disconnecting, never by being forgotten.")
 ADD_TEXT["C05"] += (" Round 7: the owner a unicast message is handed to is a connected client in every reachable state (primary_owner_is_connected).")
+ADD_TEXT["C17"] += (" Round 7: sends that fail after the message was given its serial, and the application's retry with the very same message, are in model, harness and "
+                    "generator (sendFail, retry); registered_serials_distinct: until the 32-bit counter wraps, and as long as the application leaves serials to the connection, "
+                    "the calls a connection has registered carry pairwise distinct serials whatever came in between - pairing a reply by serial never has two candidates.")
+ADD_TEXT["C10"] += (" Round 7: five scenarios of clients that do something odd to their socket and fall silent (half-closed either way, before authentication, in the middle of a "
+                    "message, stalled with a backlog): the daemon's CPU time over a quiet second must be about zero (F29, the bus spinning after a client shut down its reading "
+                    "side, was found this way and repaired in /repo); subscribers that stop reading: max_outgoing_bytes holds for broadcast copies too (scenarios, generated "
+                    "profile, oracle clause).")
 NEW_NOTE = {
     "C09": "Partial: 'exactly one NoReply' is 'at most one, exactly one unless the caller's own receive policy refuses the bus's error'; when a recipient's queue is full is an input of the "
            "environment (stall events), not computed from message sizes; timer precision is not modelled (the virtual clock only ever stands at least 100 s away from any deadline).",
